@@ -187,6 +187,7 @@ func resetCaches() {
 	lockedHelperCache = map[*ssaFunc][]int{}
 	fieldOwnerCache = map[string]bool{}
 	globalFieldCache = map[string]ssa.Value{}
+	atomRange = map[string][2]int64{}
 	fieldLiteralOnlyCache = map[string]bool{}
 	dynCalleeCache = map[ssa.CallInstruction][]*ssa.Function{}
 	addressTakenFns, addressTakenDone = nil, false
